@@ -155,6 +155,56 @@ def run_count_case(impl, k, out, form=None):
         w.teardown()
 
 
+class _SleepyDisconnect:
+    """Application whose disconnect handler takes 0.25 s of virtual time."""
+    def connect(self, sid, environ):
+        return []
+
+    def message(self, sid, data):
+        return []
+
+    def disconnect(self, sid, reason):
+        return [('sleep', 0.25)]
+
+
+def run_closing_case(impl, case, out):
+    """An oversize (or boundary) POST that arrives while the session is in the middle of closing."""
+    L, declared, how = case['L'], case['declared'], case['how']
+    w = peer.make_world(impl, server_kwargs=dict(max_http_buffer_size=L, ping_interval=2, ping_timeout=1),
+                        behaviour=_SleepyDisconnect())
+    try:
+        sid = peer.sid_of(peer.open_polling(w))
+        peer.poll(w, sid)
+        if how == 'post_close':
+            peer.post(w, sid, '1')
+        else:
+            w.call('disconnect', sid)
+            w.run()
+        # the disconnect handler is now asleep; the session is closing but not closed
+        nev = len(w.events)
+        body = ('4' + 'a' * (declared - 1)).encode()
+        r = peer.post(w, sid, body, declared=declared)
+        w.run_until(w.now + HORIZON)
+        limit = min(declared, L)
+        if impl == 'sync':
+            bad = [x for x in r.reads if x < 0 or x > limit]
+            if bad:
+                V(out, impl, 'read_beyond_limit', 'post_while_closing',
+                  'wsgi.input.read(%r) with declared=%d limit=%d while the session was closing' % (bad, declared, L), case)
+        msgs = [e for e in w.events[nev:] if e[0] == 'message']
+        if declared > L and msgs:
+            V(out, impl, 'oversize_data_delivered', 'post_while_closing', 'message events %r' % [str(m[2])[:10] for m in msgs], case)
+        if not r.done:
+            V(out, impl, 'blocked_forever', 'post_while_closing', 'POST unanswered, parked in %s' % w.blocked_site(r), case,
+              site=blocked_info(w, r))
+        elif r.exc:
+            V(out, impl, 'exception_escaped', 'post_while_closing', 'POST raised %s at %s' % (r.exc['type'], r.exc['site']), case)
+        elif declared > L and r.status != 400:
+            V(out, impl, 'oversize_not_refused', 'post_while_closing', 'status %r' % r.status, case)
+    finally:
+        w.teardown()
+
+
 def frame_of(kind, n):
     if kind == 'text':
         return '4' + 'a' * (n - 1) if n >= 1 else ''
@@ -232,6 +282,8 @@ def _work(chunk):
         try:
             if kind == 'post':
                 run_post_case(impl, case, out)
+            elif kind == 'closing':
+                run_closing_case(impl, case, out)
             elif kind == 'count':
                 if isinstance(case, dict):
                     run_count_case(impl, case['packets'], out, case.get('form'))
@@ -266,6 +318,10 @@ def jobs_for(ctx):
         for k in (40, 100):
             for form in (None, 'quote'):
                 jobs.append(('count', impl, {'packets': k, 'form': form}))
+        for L in (10, 100):
+            for declared in (L - 1, L, L + 1, 10 * L):
+                for how in ('post_close', 'api_disconnect'):
+                    jobs.append(('closing', impl, {'L': L, 'declared': declared, 'how': how}))
         for L in [6, 10, 100, 1000000]:
             for n in sorted({1, L - 1, L, L + 1, L + 2, 10 * L if L < 1000000 else L + 1000}):
                 for kind in ('text', 'binary'):
@@ -292,7 +348,7 @@ def run(ctx):
         'rule': 'limits %r; POST bodies of length {0,1,L-2..L+2,10L} x declared length {actual,actual+-1,L,L+1,0} x '
                 '{text, base64} x ASGI chunking {one, many}%s; 0..18 (and 40, 100) packets per body, plain and as d= form bodies (quote, quote_plus, raw separators); frames of length '
                 '{1,L-1,L,L+1,L+2,10L} x {text,binary} x stage {first frame of a ws-only session, probe frame, second '
-                'handshake frame, steady state} x pending poll; every case followed by %.0fs of virtual time and '
+                'handshake frame, steady state} x pending poll; POSTs around the limit arriving while the session is in the middle of closing (disconnect handler suspended); every case followed by %.0fs of virtual time and '
                 'liveness probes; both servers. All cases distinct.' % (LIMITS, '' if ctx.quick else ' x pending poll on/off', HORIZON),
         'samples': [jobs[0][2], jobs[len(jobs) // 2][2], jobs[-1][2]],
         'exhaustive': True,
@@ -309,7 +365,9 @@ def replay(ctx, payload):
     r = payload['replay']
     out = []
     c = r['case']
-    if isinstance(c, dict) and 'stage' in c:
+    if isinstance(c, dict) and 'how' in c:
+        run_closing_case(r['impl'], c, out)
+    elif isinstance(c, dict) and 'stage' in c:
         run_frame_case(r['impl'], c, out)
     elif isinstance(c, dict) and 'packets' in c:
         run_count_case(r['impl'], c['packets'], out, c.get('form'))
